@@ -116,6 +116,9 @@ class SuciProc(Stream):
             for n in (0, 1, 10000, 2):
                 if int(msin) + n < 10 ** len(msin):
                     add(mcc, mnc, msin, n)
+        # the corners of the PLMN space (000/000 encodes as 00 00 00, 999/999 as 99 99 99): reserved-looking, legal
+        for mcc, mnc in (("000", "000"), ("999", "999"), ("000", "00"), ("999", "99")):
+            add(mcc, mnc, rng.digits(5) + tail, 0)
         return cs
 
     def go_case(self, c):
